@@ -8,7 +8,8 @@ Client side (`RaftTransaction`): reads go to a bbolt read transaction opened at 
 `Delete` record one `verifyReadOp` per key — the SHA-384 of `{key}value` of the SNAPSHOT content, for the first
 read or write of that key —, writes are buffered in `updates`; `ListPage` walks the snapshot cursor, merges the
 buffered puts, hides the buffered deletes, and records one `verifyListOp` per (prefix, after) with
-`presentKeys` and `verifyLimit = len(presentKeys)`; `Commit` of a read-only / never-written transaction
+`presentKeys` and `verifyLimit = len(presentKeys)` — plus one when no look-ahead entry was recorded and the
+record is not empty (the repair of F8) —; `Commit` of a read-only / never-written transaction
 returns at once, otherwise it ships `begin ‖ verifies ‖ writes ‖ commit` through raft.
 
 Apply side, only as far as the verdict needs it (`applyBatchTxOps`): every verification is either BYPASSED —
@@ -210,7 +211,9 @@ def RTxn.listPage (t : RTxn) (pre after : String) (limit : Int) : RTxn × Res :=
     let keys := st.keys ++ sortStrings (st.updates.filter (fun u => lastKey < u))
     let keys := if limit > 0 ∧ (keys.length : Int) > limit then keys.take limit.toNat else keys
     let present := if st.next != "" then st.present ++ [st.next] else st.present
-    let verifyLimit := present.length
+    -- no look-ahead entry recorded (the cursor ran out before the limit): verify with ONE EXTRA slot, so that the
+    -- re-listing at apply time sees a key appended behind the last entry; an empty record keeps 0 (= no limit)
+    let verifyLimit := if st.next == "" && present.length > 0 then present.length + 1 else present.length
     let existing := t.lists.find? (fun r => r.pre == pre && r.after == after)
     let lists :=
       match existing with
